@@ -527,10 +527,12 @@ pub struct RunConfig {
     pub shared_multicast: bool,
     pub fates: &'static [Fate],
     pub keep_logs: bool,
+    /// consecutive polls without an idle executor after which the network is pumped anyway (0 = only when idle)
+    pub busy_pump_steps: u64,
 }
 impl Default for RunConfig {
     fn default() -> Self {
-        RunConfig { horizon_ms: 20_000, step_cap: 400_000, fragment_size: 1344, shared_multicast: false, fates: FATES_QUICK, keep_logs: true }
+        RunConfig { horizon_ms: 20_000, step_cap: 400_000, fragment_size: 1344, shared_multicast: false, fates: FATES_QUICK, keep_logs: true, busy_pump_steps: BUSY_PUMP_STEPS }
     }
 }
 
@@ -707,8 +709,8 @@ fn flush_held() -> bool {
 }
 
 /// Run one complete execution of `program` under the given choice prefix.
-/// consecutive polls without an idle executor after which the network is pumped anyway (2 ms of virtual time)
-const BUSY_PUMP_STEPS: u64 = 2000;
+/// default of RunConfig::busy_pump_steps (20 ms of virtual time)
+const BUSY_PUMP_STEPS: u64 = 20_000;
 
 pub fn run_one<F, Fut>(cfg: &RunConfig, prefix: &[u8], program: F) -> RunOutcome
 where
@@ -782,7 +784,7 @@ where
                 // virtual time at step_ns per poll) whatever was sent is delivered. Without this a task that never goes
                 // idle (e.g. a worker asking for zero-length sleeps because something is overdue) starves every datagram.
                 busy_steps += 1;
-                if busy_steps >= BUSY_PUMP_STEPS {
+                if cfg.busy_pump_steps > 0 && busy_steps >= cfg.busy_pump_steps {
                     busy_steps = 0;
                     if pump_network(&sh) | flush_held() {
                         with(|w| *w.counters.entry("busy_network_pumps").or_insert(0) += 1);
